@@ -174,8 +174,22 @@ def fam_healstates_all(seed, tier):
     scs = []
     for k in take:
         c = cases[k]
+        # HealStates.tla enumerates terms and logs, not votes.  A state in which some log holds an entry
+        # of term T while a node whose current term is T "has not voted yet" is not reachable: T had a
+        # leader, and a node that is in T has either voted for it or learnt T from it - if it could
+        # still vote in T a second leader of T could be elected during recovery (three of the 10 044
+        # states did that in the first thorough run: two different entries with one index and term,
+        # reported as NotConvergedWithin4B; a check artefact, DESIGN.md 12.19).  The vote of such a
+        # node is the leader of its term: the node that holds most entries of that term.
+        def leader_of(t):
+            best, cnt = "", 0
+            for n in ("a", "b", "c"):
+                k2 = sum(1 for e in c[n]["ents"] if e["t"] == t and e["i"] > 1)
+                if k2 > cnt:
+                    best, cnt = n, k2
+            return best
         sc = {"name": "hs-%d" % k, "family": "healstate", "voters": ["a", "b", "c"], "controlled": False, "auto": True, "heal": True, "heal_et": 60,
-              "prep": {n: {"term": c[n]["term"], "ents": c[n]["ents"]} for n in ("a", "b", "c")}, "stimuli": []}
+              "prep": {n: {"term": c[n]["term"], "vote": leader_of(c[n]["term"]), "ents": c[n]["ents"]} for n in ("a", "b", "c")}, "stimuli": []}
         if c["down"] != "none":
             sc["no_start"] = [c["down"]]
             sc["heal_keep_down"] = [c["down"]]
